@@ -166,6 +166,27 @@ fn mutate(p: &mut Party, foreign_dids: &[String], round: usize) {
           let _ = doc.insert_service(s);
         }
       }
+      5 if ctx::choose(3) == 0 => {
+        // controllers as they arrive in a document read from JSON: a single controller written as a one-element
+        // array or as a bare string, possibly a foreign IOTA DID that spells out the default network name
+        if let AnyDoc::Iota(doc) = &mut p.doc {
+          let foreign_iota: Vec<&String> = foreign_dids.iter().filter(|d| d.starts_with("did:iota:")).collect();
+          let mut c = if foreign_iota.is_empty() || ctx::choose(3) == 0 { own.clone() } else { foreign_iota[ctx::choose(foreign_iota.len())].clone() };
+          if let Some(tag) = c.strip_prefix("did:iota:0x") {
+            if ctx::choose(2) == 0 {
+              c = format!("did:iota:iota:0x{tag}");
+              ctx::stat("probe.controller_spells_default_network");
+            }
+          }
+          let mut v = serde_json::to_value(&*doc).unwrap();
+          let as_array = ctx::choose(2) == 0;
+          v["doc"]["controller"] = if as_array { serde_json::json!([c]) } else { Value::from(c) };
+          if let Ok(d2) = IotaDocument::from_json_value(v) {
+            *doc = d2;
+            ctx::stat(if as_array { "probe.controller_one_element_array_from_json" } else { "probe.controller_string_from_json" });
+          }
+        }
+      }
       5 => {
         if let AnyDoc::Iota(doc) = &mut p.doc {
           let mut ctrls: Vec<IotaDID> = Vec::new();
@@ -385,7 +406,14 @@ pub fn run(_params: &Params) {
           }
         }
         1 => {
-          let extra = ctx::bytes(1 + ctx::choose(40));
+          // (sometimes far more than a maximal document: whatever follows the prefixed length is not the document's)
+          let extra = if ctx::chance(1, 6) {
+            let mut e = ctx::bytes(64);
+            e.resize(60_000 + ctx::choose(12_000), 0xA5);
+            e
+          } else {
+            ctx::bytes(1 + ctx::choose(40))
+          };
           ctx::stat("fault.ledger.trailing_garbage");
           ctx::sched("garbage", extra.len() as u64);
           let mut b = version.bytes.clone();
